@@ -8,7 +8,7 @@ These are NOT expected to be caught one by one (many are equivalent or outside t
 the score (killed = exit 1, no verdict = exit 2, survived = exit 0) as a measure of how much of the anchored code the
 obligations constrain, and lists survivors for triage.
 
-usage:  python -m sa.automut C05 [--limit N] [--show]"""
+usage:  python -m sa.automut C05 [--limit N] [--file <substring of an anchored path>] [--show]"""
 import ast
 import copy
 import json
@@ -99,10 +99,16 @@ def _run(args):
     pid, rel, desc, src = args
     from .check import run_check
     from .core import load_known
+    import gc
     try:
         ctx, err = run_check(pid, "quick", Program(overlay={rel: src}), timeout=120)
-    except Exception as e:
+    except BaseException as e:
+        gc.collect()
         return desc, "error", str(e)[:100]
+    finally:
+        from . import evalr
+        del evalr.ALL_TRACES[:]
+        gc.collect()
     known = load_known()
     new = [f for f in ctx.findings if not any(k.get("property") == f.pid and k.get("rule") == f.rule and k.get("site") == f.site and k.get("construct") == f.construct for k in known)]
     if new:
@@ -112,9 +118,11 @@ def _run(args):
     return desc, "survived", ""
 
 
-def run(pid, limit=None, jobs=16, seed=0):
+def run(pid, limit=None, jobs=16, seed=0, only=None):
     work = []
     for rel in anchors(pid):
+        if only and only not in rel:
+            continue
         for desc, src in mutants_of(rel):
             if src is not None:
                 work.append((pid, rel, desc, src))
@@ -133,7 +141,8 @@ def run(pid, limit=None, jobs=16, seed=0):
 if __name__ == "__main__":
     pid = sys.argv[1]
     limit = int(sys.argv[sys.argv.index("--limit") + 1]) if "--limit" in sys.argv else None
-    res = run(pid, limit)
+    only = sys.argv[sys.argv.index("--file") + 1] if "--file" in sys.argv else None
+    res = run(pid, limit, only=only)
     from collections import Counter
     c = Counter(r[1] for r in res)
     print(pid, dict(c), "score %.0f%%" % (100.0 * c["killed"] / max(1, len(res))))
